@@ -24,7 +24,8 @@ META = {
         'kinds': ['space (continuous)', 'discrete (generic grid)', 'line', 'grid (2-D)'],
         'extents': 'grid {0,1,3} quick / {0,1,2,3,4} thorough per axis; continuous {0,1,1.5} step 0.5 quick / '
                    '{0,1,2.5,3} step 0.5 and {0,1,1.5} step 0.25 thorough',
-        'move deltas per axis': '0, +-1, +-2, +-extent, +-(2*extent+1), +-10^6 (continuous also +-step) '
+        'move deltas per axis': '0, +-1, +-2, +-extent, +-(2*extent+1), +-10^6 (continuous also +-step; grids also '
+                                '+-(10^18+7)) '
                                 'and all sign patterns of (1,2,3) on the three axes',
         'move_to / add targets': 'corners, centre, every lattice value per axis through the centre (grids with <= 27 '
                                  'cells: every cell), one step outside on each side of each positive axis from two '
@@ -135,6 +136,8 @@ class Harness:
                 vals += [E, -E, 2 * E + 1, -(2 * E + 1)]
             if cont:
                 vals += [self.step, -self.step]
+            else:
+                vals += [10 ** 18 + 7, -(10 ** 18 + 7)]     # far beyond 2**53: integer arithmetic must stay exact
             if not self.rich:
                 vals = [1, -1] + ([E, -E] if E > 0 else []) + ([self.step] if cont else [])
             for v in vals:
@@ -167,6 +170,8 @@ class Harness:
                 ops += [['move', k, d] for d in self._menu['deltas']]
                 ops += [['move_to', k, t] for t in self._menu['targets']]
                 ops.append(['remove', k])
+                # placing an agent that is already in the world again (elsewhere): rejected, nothing moves
+                ops += [['readd', k, t] for t in self._menu['targets'][:3]]
         return ops
 
     def _in_range(self, p):
@@ -257,6 +262,20 @@ class Harness:
                     raise Violation(f'rejected move_to {p} changed the position', expected=before,
                                     observed=self._read(w, k))
             w.last = (kind, ok, w.pos[k])
+        elif kind == 'readd':
+            p = op[2]
+            try:
+                w.env.add_agent(a, *self._call_args(p))
+            except Exception as e:
+                if self._in_range(p) and not isinstance(e, Core.DuplicateAgentError):
+                    raise Violation(f'placing the resident agent again at {p} raised {type(e).__name__}',
+                                    expected='DuplicateAgentError')
+                if self._read(w, k) != before:
+                    raise Violation(f'rejected re-placement at {p} of an agent that is already in the world moved it',
+                                    expected=before, observed=self._read(w, k))
+                w.last = (kind, False, w.pos[k])
+            else:
+                raise Violation(f'placing an agent that is already in the world again at {p} was accepted')
         elif kind == 'remove':
             w.env.remove_agent(k)
             w.pos[k] = None
